@@ -12,7 +12,7 @@ def pass2 : List Nat → List (Nat × Ring Cmd) → List Cmd → List (Nat × Ri
   | [], kept, buf2 => (kept, buf2)
   | t :: rest, kept, buf2 =>
     let r := (natGet kept t).getD (Ring.new Consts.ringCap)
-    pass2 rest (natSet kept t { r with q := [] }) (buf2 ++ r.q)
+    pass2 rest (if (natGet kept t).isSome then natSet kept t { r with q := [] } else kept) (buf2 ++ r.q)
 
 def keysOf (l : List (Nat × Ring Cmd)) : List Nat := l.map (·.1)
 
@@ -55,7 +55,7 @@ theorem pass2_suffix (pre suf : List (Nat × Ring Cmd)) (buf2 : List Cmd)
     have hg : natGet ((t, r) :: tl) t = some r := by simp [natGet]
     have hs : natSet ((t, r) :: tl) t { r with q := [] } = (t, { r with q := [] }) :: tl := by simp [natSet]
     rw [hg]
-    simp only [Option.getD_some]
+    simp only [Option.getD_some, Option.isSome_some, if_true]
     rw [hs]
     have hn' : (keysOf ((pre ++ [(t, ({ r with q := [] } : Ring Cmd))]) ++ tl)).Nodup := by
       simpa [keysOf, List.map_append] using hn
